@@ -87,6 +87,18 @@ CLAIMED = {
              "pre-assigned addresses are assumed stable.",
         technique="Coq invariant proof over all interleavings + trace-replay correspondence",
         ref="7/C25"),
+    "C12": dict(
+        text="Theorems C12_sent_once_in_order (induction over ANY list of queued requests: each goes into exactly one frame, in submission order, every frame "
+             "within the size/count limits, never-fitting requests fail; the packing function is total, i.e. sendloop returns to awaiting), C12_frames_fit, "
+             "C12_independent / C12_own_bytes_or_error / C12_at_most_once (completion is a pointwise function of the request's own future state, working counter "
+             "and response bytes). Tied to the code by running the real sendloop/process_packet/roundtrip/datagram_received with a scripted transport: concurrent "
+             "requests, overflow of size and count limits, cancellation before packing and in flight, wkc 0/1/2, lost, duplicated, delayed and truncated frames; "
+             "a watchdog turns an event-loop stall into a failure.",
+        note=TB + "Modelled: sendloop packing and process_packet completion (Ecat/SendLoop.v). Partial: asyncio's FIFO scheduling is assumed (random orderings of "
+             "ready callbacks are not explored); lost frames/duplicates are handled by wait_futures bookkeeping, which is exercised by the correspondence and "
+             "the oracle but has no theorem of its own.",
+        technique="Coq proof by induction over request lists + differential correspondence with scripted bus",
+        ref="7/C12"),
 }
 
 REASONS_NOT_YET = "no check built yet in this round (planned, see DESIGN.md section 7); nothing is claimed for it"
